@@ -106,7 +106,8 @@ def gen_chain(g, n_target=None, force_worm=None, self_locking=None,
         n_target = r.choice([2, 3, 3, 4, 4, 5, 6, 7, 8, 10, 12])
     els = [g.motor('e0_motor')]
     decls = []
-    worm_done = False
+    worm_done = 0
+    worm_max = 2 if g.chance(0.3) else 1
     want_worm = force_worm if force_worm is not None else g.chance(0.35)
 
     def add(e):
@@ -142,9 +143,10 @@ def gen_chain(g, n_target=None, force_worm=None, self_locking=None,
             beta_q = g.q('Angle', beta_si)
         out = []
         sub = None
+        same_teeth = g.teeth() if g.chance(0.08) else None
         for _ in range(2):
             sub = subset(like=sub)
-            e = {'kind': kind, 'z': g.teeth(), 'J': g.inertia(),
+            e = {'kind': kind, 'z': same_teeth or g.teeth(), 'J': g.inertia(),
                  'm': g.q('Length', m_si) if 'm' in sub else None,
                  'b': g.q('Length', r.uniform(2e-3, 40e-3)) if 'b' in sub else None,
                  'E': g.q('Stress', g.logu(1e9, 2.1e11)) if 'E' in sub else None}
@@ -161,7 +163,7 @@ def gen_chain(g, n_target=None, force_worm=None, self_locking=None,
         opts = ['fly']
         if left >= 2:
             opts += ['spur', 'spur', 'helical']
-            if want_worm and not worm_done:
+            if want_worm and worm_done < worm_max:
                 opts += ['worm', 'worm', 'worm']
         if left == 1:
             opts = ['fly', 'lone']
@@ -204,7 +206,7 @@ def gen_chain(g, n_target=None, force_worm=None, self_locking=None,
                               'eff': round(r.uniform(0.7, 1.0), 3)})
                 prev = ic
         elif c == 'worm':
-            worm_done = True
+            worm_done += 1
             alpha_deg = r.choice([14.5, 20.0, 25.0, 30.0])
             hmax = rm.WORM_TABLE[alpha_deg][0]
             alpha = alpha_deg * pi / 180
@@ -219,7 +221,9 @@ def gen_chain(g, n_target=None, force_worm=None, self_locking=None,
             beta = r.uniform(2.0, hmax * 0.985) * pi / 180
             thr, fmax = worm_f_range(alpha, beta, worm_master)
             sl = self_locking
-            if sl is None:
+            if sl is None or worm_done > 1:
+                # (with two worm stages only the first one is forced; the
+                # powertrain is self-locking if ANY of them is)
                 sl = g.chance(0.5)
             if not worm_master:
                 sl = False
@@ -375,7 +379,7 @@ def gen_run(g, k, n=None, kdt=None, unit=None, decimal=False, **extra):
         kdt = min(kdt, 1.0)
     if n is None:
         n = r.randint(*g.cfg.get('steps', (3, 60)))
-    if unit is None and not g.cfg.get('mixed_time_units'):
+    if unit is None and not g.cfg.get('mixed_time_units', True):
         if not hasattr(g, 'time_unit'):
             g.time_unit = g.unit('TimeInterval')
         unit = g.time_unit
@@ -396,9 +400,14 @@ def gen_run(g, k, n=None, kdt=None, unit=None, decimal=False, **extra):
         op['T_mode'] = 'product'
     else:
         op['T_mode'] = 'literal'
-        tu = u if (g.chance(0.7) or not g.cfg.get('mixed_time_units')) \
+        tu = u if (g.chance(0.7) or not g.cfg.get('mixed_time_units', True)) \
             else g.unit('TimeInterval')
-        op['T'] = [v * n * si.factor('TimeInterval', u) /
+        nn = n
+        if g.chance(0.25) and not decimal and not g.cfg.get('differential'):
+            # a duration that is NOT a whole number of steps: the solver
+            # still takes ceil(T/dt) = n steps of dt each
+            nn = n - r.uniform(0.05, 0.95)
+        op['T'] = [v * nn * si.factor('TimeInterval', u) /
                    si.factor('TimeInterval', tu), tu]
     op.update(extra)
     return op
@@ -793,8 +802,12 @@ def gen_sched(g):
     if mode != 'split':
         second = copy.deepcopy(scn['schedule'])
         second[0]['solver'] = r.choice(['same', 'new'])
+        # the duty cycle is either re-applied with the other initial
+        # conditions or left to reset() (comparable only if the controller
+        # applied the pre-run duty cycle again at t = 0, see the oracle)
         scn['schedule'] = scn['schedule'] + \
-            [{'op': 'reset', 'reapply': True}] + second
+            [{'op': 'reset', 'reapply': True,
+              'reapply_pwm': g.chance(0.5)}] + second
     return scn
 
 
